@@ -64,7 +64,7 @@ impl Ctx {
     /// scenario count for this tier, scaled
     pub fn n(&self, quick: u64, thorough: u64) -> u64 {
         // thorough counts are upper bounds: the stage's time budget (out_of_time) normally ends the run first
-        let base = if self.quick() { quick } else { thorough * 8 };
+        let base = if self.quick() { quick } else { thorough * 32 };
         ((base as f64) * self.scale).ceil() as u64
     }
 
@@ -78,6 +78,11 @@ impl Ctx {
 
     pub fn out_of_time(&self) -> bool {
         self.only.is_none() && self.start.elapsed().as_secs_f64() > self.budget_s
+    }
+
+    /// for monitors with several consecutive parts: true once `fraction` of the budget is used
+    pub fn out_of_fraction(&self, fraction: f64) -> bool {
+        self.only.is_none() && self.start.elapsed().as_secs_f64() > self.budget_s * fraction
     }
 }
 
